@@ -476,8 +476,17 @@ func strClass(s string, args []string) string {
 	return "relative"
 }
 
-func leaks(got, want string) bool {
-	return strings.Contains(got, "/top") && !strings.Contains(want, "/top")
+// hasTopB: s names the consecutive segments "top", "b" - the base path.
+func hasTopB(s string) bool {
+	return strings.Contains("/"+s+"/", basePath+"/")
+}
+
+// leaks: the wrapper's string names the base path, the reference's does not,
+// and the base path cannot be a legitimate virtual name here (canLeak: no
+// argument of the call and no node of the virtual tree is called top/b - the
+// alphabet contains the segments "top" and "b" on purpose).
+func leaks(got, want string, canLeak bool) bool {
+	return canLeak && hasTopB(got) && !hasTopB(want)
 }
 
 // valClass: coarse class of a non-path value pair.
@@ -616,6 +625,14 @@ func (s *sys) Step(op int) bfs.StepResult {
 		viols = append(viols, bfs.Viol{Sig: sig})
 	}
 
+	canLeak := !hasTopB(o.A) && !(o.Two && hasTopB(o.B))
+
+	for _, l := range s.bDump {
+		if hasTopB(pathOf(l)) {
+			canLeak = false
+		}
+	}
+
 	rootCase := s.fsName == "OrefaFS" && refRootInvolved(vcwd, o)
 	readOnly := readOnlyCalls[o.Call]
 	sameKinds := true
@@ -707,7 +724,7 @@ compare:
 		}
 
 		// returned path strings
-		if kind, wc, gc, why := comparePaths(w.Paths, g.Paths, args, &notes); kind != "" {
+		if kind, wc, gc, why := comparePaths(w.Paths, g.Paths, args, canLeak, &notes); kind != "" {
 			if kind == "differs" {
 				kind = "value"
 			}
@@ -720,7 +737,7 @@ compare:
 		}
 
 		// paths embedded in the error
-		if kind, wc, gc, why := comparePaths(w.ErrPaths, g.ErrPaths, args, &notes); kind != "" {
+		if kind, wc, gc, why := comparePaths(w.ErrPaths, g.ErrPaths, args, canLeak, &notes); kind != "" {
 			if kind == "differs" {
 				kind = "error-path"
 			}
@@ -770,9 +787,14 @@ compare:
 		}
 	}
 
-	newB := path.Clean(s.base.CurDir())
+	// cwd: where the base really is (clean, then strip B) and what the wrapper
+	// presents (strip B, then clean - FromBasePath) must both be the reference's
+	rawB := s.base.CurDir()
+	newB := path.Clean(rawB)
 	newV := path.Clean(s.ref.CurDir())
-	cwdDiverged := !(underB(newB) && (strings.TrimPrefix(newB, basePath) == newV || (newB == basePath && newV == "/")))
+	semantic := underB(newB) && path.Clean("/"+strings.TrimPrefix(newB, basePath)) == newV
+	presented := strings.HasPrefix(rawB, basePath) && path.Clean("/"+strings.TrimPrefix(rawB, basePath)) == newV
+	cwdDiverged := !(semantic && presented)
 
 	if cwdDiverged && len(viols) == 0 {
 		mk(o.Call, "cwd", "virtual:"+strClass(newV, args), "base:"+strClass(newB, args), fmt.Sprintf("reference cwd %q, base cwd %q", newV, newB))
@@ -837,10 +859,10 @@ func (s *sys) finish(o opT, pc string, want, got result, viols []bfs.Viol, diffs
 // comparePaths compares two lists of path strings modulo Clean. kind: "" (equal
 // or equal modulo spelling), "leak" (the wrapper's string shows the base
 // prefix and the reference's does not), "differs".
-func comparePaths(want, got, args []string, notes *[]string) (kind, wc, gc, why string) {
+func comparePaths(want, got, args []string, canLeak bool, notes *[]string) (kind, wc, gc, why string) {
 	if len(want) != len(got) {
 		for _, g := range got {
-			if leaks(g, strings.Join(want, ",")) {
+			if leaks(g, strings.Join(want, "/,/"), canLeak) {
 				return "leak", "list", "base-prefixed", fmt.Sprintf("reference %q, BasePathFS %q", want, got)
 			}
 		}
@@ -866,7 +888,7 @@ func comparePaths(want, got, args []string, notes *[]string) (kind, wc, gc, why 
 		}
 
 		k := "differs"
-		if leaks(gs, ws) {
+		if leaks(gs, ws, canLeak) {
 			k = "leak"
 		}
 
